@@ -2,6 +2,12 @@
 """Regenerates MANIFEST.json from the table below (kept in one place so it is always valid)."""
 import json, os
 CLAIMED = {
+ "C01": ("codec-table agreement: vectorised abstract interpretation of the encoders' length/bit cascades vs an RFC 6455 table; loop-role proof obligations; index-agreement and who-may-touch (FIFO) rules over the AST/CFG",
+         "Decides necessary structural conditions of the frame codec on every path: the three encoders' payload-length coding equals RFC 6455 5.2 on every boundary class (the decoder's is proven in C02.1), header bit layout for all 256 fin/rsv/opcode values, the fragmentation and chop loops partition the payload into adjacent slices with correct FIN/opcode/RSV roles, every buffer split uses one index, the send queue is only used FIFO and direct writes cannot overtake it, both adapters forward every hook unchanged. Does not decide exactly-once in-order delivery for all segmentations and API mixes (runtime schedules).",
+         "3 C01"),
+ "C02": ("decision-table extraction: vectorised abstract interpretation of processData()'s header cascade over the complete finite domain (2^16 headers x 64 contexts) compared cell-by-cell with an RFC 6455 table; predicate extension over 0..65535 for close codes; guard-dominance rules on CFG",
+         "Exhaustive for the header verdict: all 4 194 304 (context, first-two-octets) cells plus every boundary class of the extended length are compared with a reference table written from RFC 6455 5.2/5.5 and RFC 7692; the close-code predicate is compared by extension over all 65536 codes; UTF-8 fail-fast ordering, 1002/1007 + drop-vs-close policy, pong echo and the delivery gate are proven as dominance facts on the CFG. Does not decide independence from read boundaries (runtime segmentation).",
+         "3 C02"),
  "C05": ("typestate / guard-dominance analysis over CFG + call graph (must-facts dataflow, backwards argument tracing)",
          "Decides on all paths of the code: permitted predecessor states of every self.state writer, single guarded close-frame site, state==OPEN guard of every send API, legality of every close code/reason reaching sendCloseFrame, ownership and mutual exclusion of the close notification, closing-timer pairing. Does not decide the behaviour under all event interleavings or real-time bounds (runtime schedules).",
          "3 C05"),
